@@ -167,7 +167,9 @@ def oracle(ctx, c, budget):
     n = 0
     targets = sorted(routed)
     if len(targets) > 6:
-        targets = targets[:2] + ctx.rng.sample(targets[2:], 3)
+        targets = targets[:1] + ctx.rng.sample(targets[1:], 2)
+    elif ctx.tier == "quick":
+        targets = [ctx.rng.choice(targets)]           # one target per small history (each comparison is one mlr run)
     for t in targets:
         recs = routed[t]
         if any(len({k for k, _ in r}) != len(r) for r in recs):
@@ -239,7 +241,9 @@ def run_writers(ctx, scratch, cap, drive, coq_eval_defs):
             continue
         if c.get("errors"):
             ctx.dist("writers:writer-error(" + c["fmt"] + ")")
-            if not (c["fmt"] in ("csv", "tsv") and all("schema change" in e or "unset" in e or "schema" in e for e in c["errors"])):
+            # CSV / TSV report a schema change ("exiting due to data error", details on stderr): the MODEL must then report an error too
+            # (chkG); every other writer is total (ProofsW.*_total), an error there is a defect
+            if c["fmt"] not in ("csv", "tsv"):
                 if budget[0] > 0:
                     budget[0] -= 1
                     ctx.violation({"class": "manager-error", "fmt": c["fmt"], "errors": c["errors"][:3], "opts": c["opts"],
